@@ -106,7 +106,7 @@ Definition check_case (c : case) : verdict :=
       let spec_off := run_all (validate (cf_al cf)) (cf_checkfirst cf) (cf_ex cf) fl_spec (spec_step chk) [] ops in
       if spec_impl then (if m fl_code || m fl_spec || m fl_old || m fl_cid then VOk else VModelMismatch)
       else if negb spec_off then VSpecFail
-      else if m fl_code then VKnown 2
+      else if m fl_code && obs_spec false [] h then VKnown 2   (* only the hash clause fails *)
       else if m fl_old || m fl_cid then VKnown 1
       else VSpecFail
   end.
